@@ -6,7 +6,8 @@ EXPLANATION = (
     "K8/K9. P tier: on the real PlanEntityEmitter._configure_decider, for each comparator, the emitted condition (draftsman "
     "constructors used by assumed contract) means `left CMP right` for all operand kinds and each operand keeps its wire "
     "selection, incl. the mirrored constant-first form; the call-site precondition of the (assumed) draftsman serialisation contract — every to_dict / to_string "
-    "call in cli.py and compile.py passes version=blueprint.version_tuple() — is discharged on the AST of the real files. B tier (bounded): the real CLIs (python -m dsl_compiler.cli, python -m dsl_compiler, compile.py) are run as "
+    "call in cli.py and compile.py passes version=blueprint.version_tuple() — is discharged on the AST of the real files; in both pipeline drivers every stage object is constructed after the stage it "
+    "depends on has run (the emitter after layout, which completes the signal map the emitter keeps). B tier (bounded): the real CLIs (python -m dsl_compiler.cli, python -m dsl_compiler, compile.py) are run as "
     "subprocesses over {file, -i} x {string, --json} x {stdout, -o} x {default, --no-optimize, --power-poles, --name}; the "
     "emitted text is decoded with the standard library (base64 + zlib + JSON / JSON); every combinator must carry its "
     "configuration, wires must be present, all invocations of one program must describe the same configured entities, and "
@@ -22,6 +23,9 @@ def run(tier):
     for f in ("dsl_compiler/cli.py", "compile.py"):
         for m in ("to_dict", "to_string"):
             cr.ext_obligations.append(guards.call_has_keyword(f, m, "version", "blueprint.version_tuple()"))
+    order = {"BlueprintEmitter": "plan_layout", "LayoutPlanner": "lower_program", "ASTLowerer": "visit"}
+    for q in ("dsl_compiler/cli.py::compile_dsl_source", "compile.py::compile_dsl_file"):
+        cr.ext_obligations.append(guards.stage_order(q, order))
     cr.trusted.append("ASSUMED contract on draftsman 4.0.0: Blueprint.to_dict/to_string(version=v) is lossless for the 2.0 fields "
                       "iff the converter selected by v is the 2.0 one (measured: default 2.1 converter drops control_behavior)")
     cr.bounded_check(run_cli_matrix, "cli-matrix", tier,
